@@ -15,6 +15,8 @@ pub enum H<F: Flav> {
     Path(PathH<F>, Vec<K>),
     Nodes(Vec<F::Node>),
     Edges(Vec<F::Edge>),
+    /// a deserialised copy of the graph: its own node objects and payload instances
+    Copy(F::Graph),
 }
 
 impl<F: Flav> H<F> {
@@ -26,6 +28,7 @@ impl<F: Flav> H<F> {
             H::Path(_, ks) => ks.clone(),
             H::Nodes(v) => v.iter().map(|n| F::key(n)).collect(),
             H::Edges(v) => v.iter().flat_map(|e| [F::key(F::e_src(e)), F::key(F::e_dst(e))]).collect(),
+            H::Copy(_) => vec![],
         }
     }
     fn kind(&self) -> &'static str {
@@ -36,6 +39,7 @@ impl<F: Flav> H<F> {
             H::Path(..) => "path",
             H::Nodes(_) => "search_nodes result",
             H::Edges(_) => "search_edges result",
+            H::Copy(_) => "deserialised copy",
         }
     }
     /// Reads key and value of every node the handle mentions; returns
@@ -52,6 +56,11 @@ impl<F: Flav> H<F> {
             H::Path(p, _) => p.to_vec_nodes().iter().map(rd).collect(),
             H::Nodes(v) => v.iter().map(rd).collect(),
             H::Edges(v) => v.iter().flat_map(|e| [rd(F::e_src(e)), rd(F::e_dst(e))]).collect(),
+            H::Copy(g) => {
+                // readable, but its payloads are its own
+                let _ = F::g_to_vec(g).iter().map(rd).count();
+                vec![]
+            }
         }
     }
 }
@@ -197,7 +206,35 @@ pub fn run_scenario<F: Flav>(sc: &Scenario, rep: &mut Report) -> Vec<String> {
         }
         rep.count("scenarios_with_search_history_before_drop");
     }
+    // what every node lists before anything is dropped: must stay so while all original handles live
+    let expected: Option<Vec<EL>> = observe::<F>(&w).ok().map(|o| o.n.iter().map(|x| x.out.clone()).collect());
     let mut hs: Vec<Option<H<F>>> = take_handles::<F>(&w, sc.extras).into_iter().map(Some).collect();
+    if sc.extras & 1024 != 0 {
+        // container entry points: scc, DOT exports, a serialisation round trip whose result is one more handle
+        let mut g = F::g_new();
+        for x in &w.nodes {
+            F::g_insert(&mut g, x.clone());
+        }
+        let _ = F::g_scc(&g);
+        let _ = F::g_to_dot(&g);
+        let _ = F::g_to_dot_attr(&g, &|| None, &|_| Some(vec![("a".to_string(), "b".to_string())]), &|_, _, _| None);
+        let _ = (F::g_roots(&g), F::g_leaves(&g), F::g_orphans(&g));
+        set_cur_reg(Some(w.reg.clone()));
+        if let Ok(txt) = F::ser_json(&g) {
+            if let Ok(g2) = F::de_json(&txt) {
+                // the copy's nodes are new payload instances of the same registry: they must be released too
+                hs.push(Some(H::Copy(g2)));
+            }
+        }
+        if let Ok(b) = F::ser_cbor(&g) {
+            if let Ok(g3) = F::de_cbor(&b) {
+                drop(g3);
+            }
+        }
+        set_cur_reg(None);
+        rep.count("scenarios_with_container_api_and_serde_history");
+    }
+    let n_orig = w.n();
     // the original handles are handles too
     let World { nodes, .. } = w;
     for x in nodes {
@@ -244,6 +281,26 @@ pub fn run_scenario<F: Flav>(sc: &Scenario, rep: &mut Report) -> Vec<String> {
                     }
                     rep.count("reads_through_surviving_handles");
                 }
+            }
+        }
+        // as long as every original node handle is alive the adjacency must be what it was
+        if let Some(exp) = &expected {
+            let total = hs.len();
+            let origs: Vec<&H<F>> = hs[total - n_orig..].iter().flatten().collect();
+            if origs.len() == n_orig {
+                for (k, h) in origs.iter().enumerate() {
+                    if let H::Node(nd) = h {
+                        match catch(|| F::iter_out(nd).iter().map(|e| (F::key(F::e_dst(e)), *F::e_val(e))).collect::<EL>()) {
+                            Ok(l) => {
+                                if l != exp[k] {
+                                    msgs.push(format!("after dropping a {} node {} lists {:?}, before the drops {:?}", kind, k, l.iter().map(|(p, e)| (*p, e.id)).collect::<Vec<_>>(), exp[k].iter().map(|(p, e)| (*p, e.id)).collect::<Vec<_>>()));
+                                }
+                            }
+                            Err(p) => msgs.push(format!("after dropping a {} the edges of live node {} cannot be iterated although all nodes are alive: {}", kind, k, p)),
+                        }
+                    }
+                }
+                rep.count("adjacency_rechecks_while_all_nodes_alive");
             }
         }
         if !msgs.is_empty() {
@@ -309,7 +366,7 @@ fn report<F: Flav>(rep: &mut Report, sc: &Scenario, msgs: &[String]) {
 
 pub fn run<F: Flav>(rep: &mut Report, max_n: usize, max_e: usize, random: u64, shard: u64, nshards: u64, rng: &mut Rng) {
     let mut idx = 0u64;
-    let extras_sets: [u32; 14] = [0, 1, 2, 4, 8, 16 | 32, 1 | 2, 2 | 4 | 8, 64 | 128, 255, 256, 256 | 1 | 2 | 128, 512, 512 | 256 | 1];
+    let extras_sets: [u32; 16] = [0, 1, 2, 4, 8, 16 | 32, 1 | 2, 2 | 4 | 8, 64 | 128, 255, 256, 256 | 1 | 2 | 128, 512, 512 | 256 | 1, 1024, 1024 | 512 | 2 | 4];
     for n in 1..=max_n {
         for ne in 0..=max_e {
             let total = ((n * n) as u64).pow(ne as u32);
@@ -386,7 +443,7 @@ pub fn run<F: Flav>(rep: &mut Report, max_n: usize, max_e: usize, random: u64, s
             let b = rng.below(n) as K;
             post.push(if rng.chance(1, 4) { Op::Isolate(a) } else { Op::Disconnect(a, b) });
         }
-        let extras = rng.below(1024) as u32;
+        let extras = rng.below(2048) as u32;
         let mut order: Vec<usize> = (0..n + 8).collect();
         rng.shuffle(&mut order);
         let sc = Scenario { n, edges, post, extras, order };
